@@ -7,6 +7,7 @@ import (
 	"regexp"
 	"strings"
 
+	"github.com/facebookincubator/dns/dnsrocks/db"
 	"github.com/facebookincubator/dns/dnsrocks/dnsserver"
 	"github.com/facebookincubator/dns/dnsrocks/dnsserver/stats"
 )
@@ -145,6 +146,7 @@ func c01gen(g *gen, tier string, w *bufio.Writer) {
 	for _, l := range dfltLines {
 		fmt.Fprintf(w, "dflt %s\n", hexTok([]byte(l)))
 	}
+	fmt.Fprintln(w, "wildsafe")
 	n := 40
 	if tier == "thorough" {
 		n = 1500
@@ -198,6 +200,33 @@ func serveRunCache(line string, cache dnsserver.CacheConfig) (string, string) {
 	f := strings.Fields(line)
 	if f[0] == "dflt" && len(f) == 2 {
 		return dfltRun(f)
+	}
+	if f[0] == "wildsafe" && len(f) == 1 {
+		// the byte classes a wildcard may cross, read off the real dnsLabelWildsafe: all 256
+		// one-octet labels, and the number of accepted two-octet labels (octets are judged alone)
+		var sb strings.Builder
+		n1 := 0
+		for b := 0; b < 256; b++ {
+			if db.WildsafeForVerif([]byte{byte(b)}) {
+				sb.WriteByte('1')
+				n1++
+			} else {
+				sb.WriteByte('0')
+			}
+		}
+		n2 := 0
+		for a := 0; a < 256; a++ {
+			for b := 0; b < 256; b++ {
+				if db.WildsafeForVerif([]byte{byte(a), byte(b)}) {
+					n2++
+				}
+			}
+		}
+		verdict := "ok"
+		if n2 != n1*n1 || !db.WildsafeForVerif(nil) {
+			verdict = "FAIL:wildsafe-is-not-per-octet"
+		}
+		return sb.String(), verdict
 	}
 	if f[0] != "serve" || len(f) != 3 {
 		return "bad-op", "-"
